@@ -24,6 +24,21 @@ const ENTITY_REACTORS_WARNING_SIZE: usize = 50;
 /// normal systems that don't trigger other reactions.
 pub fn schedule_removal_and_despawn_reactors(world: &mut World)
 {
+    #[cfg(feature = "verif")]
+    crate::verif::emit(crate::verif::VerifEvent::PollBegin);
+    #[cfg(feature = "verif")]
+    struct VerifPollEnd;
+    #[cfg(feature = "verif")]
+    impl Drop for VerifPollEnd
+    {
+        fn drop(&mut self)
+        {
+            if std::thread::panicking() { return; }
+            crate::verif::emit(crate::verif::VerifEvent::PollEnd);
+        }
+    }
+    #[cfg(feature = "verif")]
+    let _verif_poll_end = VerifPollEnd;
     world.resource_scope(|world: &mut World, mut cache: Mut<ReactCache>| {
         cache.schedule_removal_reactions(world);
         cache.schedule_despawn_reactions(world);
